@@ -932,6 +932,44 @@ theorem Loc.calcAdd {r : Nat} (sys : Sys) (n : Nat) {x : Id} (hx : x.reg = r) (v
   refine Loc.bind (Loc.ofPeriod _ fun _ _ => trivial) fun subs _ => ?_
   exact Loc.sumCalc sys n hx v subs none
 
+theorem Loc.routePop {r : Nat} {x : Id} (hx : x.reg = r) (rt : Route) (ent : Nat) :
+    Loc r (routePop x rt ent) (fun pid => pid.reg = r) := by
+  unfold Heap.routePop
+  refine Loc.bind (Loc.rdSim hx) fun so hso => ?_
+  cases rt with
+  | persons => exact Loc.pure _ hso.1
+  | getPopulation => exact Loc.ofOption _ _ fun a ha => hso.2.1 _ (alGet_mem ha)
+  | populations => exact Loc.ofOption _ _ fun a ha => hso.2.1 _ (alGet_mem ha)
+  | shortcut => exact Loc.ofOption _ _ fun a ha => hso.2.1 _ (alGet_mem ha)
+
+theorem Loc.calcThrough {r : Nat} (sys : Sys) (n : Nat) {x : Id} (hx : x.reg = r) (rt : Route) (ent : Nat) (v : Var)
+    (p : Period) : Loc r (calcThrough sys n x rt ent v p) (fun _ => True) := by
+  unfold Heap.calcThrough
+  refine Loc.bind (Loc.routePop hx rt ent) fun pid hpid => ?_
+  refine Loc.bind (Loc.rdPop hpid) fun po hpo => ?_
+  refine Loc.bind (Loc.varDecl sys v) fun decl _ => ?_
+  exact Loc.ite (fun _ => Loc.fail _) fun _ => Loc.calcF sys n _ v p hpo.1
+
+theorem Loc.popGetHolder {r : Nat} (sys : Sys) {pid : Id} (hp : pid.reg = r) (v : Var) :
+    Loc r (popGetHolder sys r pid v) (fun y => y.1.reg = r ∧ InReg r (.holder y.2)) := by
+  unfold Heap.popGetHolder
+  refine Loc.bind (Loc.varDecl sys v) fun decl _ => ?_
+  refine Loc.bind (Loc.rdPop hp) fun po hpo => ?_
+  refine Loc.ite (fun _ => Loc.fail _) fun _ => ?_
+  cases hh : alGet po.holders v with
+  | none => exact Loc.createHolder sys hp v
+  | some hid =>
+    have hhid : hid.reg = r := hpo.2.1 _ (alGet_mem hh)
+    exact Loc.bind (Loc.rdHolder hhid) fun ho hho => Loc.pure _ ⟨hhid, hho⟩
+
+theorem Loc.readThrough {r : Nat} (sys : Sys) {x : Id} (hx : x.reg = r) (rt : Route) (ent : Nat) (v : Var) (p : Period) :
+    Loc r (readThrough sys x rt ent v p) (fun _ => True) := by
+  unfold Heap.readThrough
+  refine Loc.bind (Loc.routePop hx rt ent) fun pid hpid => ?_
+  refine Loc.bind (by rw [hx]; exact Loc.popGetHolder sys hpid v) fun y hy => ?_
+  obtain ⟨hid, ho⟩ := y
+  exact Loc.holderFind hy.2 p
+
 /-- every public-API call on a simulation of region `r` is local to region `r` -/
 theorem step_loc {r : Nat} (sys : Sys) (fuel : Nat) {x : Id} (hx : x.reg = r) (op : Op) :
     Loc r (step sys fuel x op) (fun _ => True) := by
@@ -960,6 +998,15 @@ theorem step_loc {r : Nat} (sys : Sys) (fuel : Nat) {x : Id} (hx : x.reg = r) (o
   | setBad v p =>
     unfold step
     exact Loc.bind (Loc.setInputBad sys hx v p) fun _ _ => Loc.pure _ trivial
+  | calcVia rt ent v p =>
+    unfold step
+    exact Loc.bind (Loc.calcThrough sys fuel hx rt ent v p) fun _ _ => Loc.pure _ trivial
+  | readVia rt ent v p =>
+    unfold step
+    refine Loc.bind (Loc.readThrough sys hx rt ent v p) fun a _ => ?_
+    cases a with
+    | none => exact Loc.pure _ trivial
+    | some a => exact Loc.pure _ trivial
 
 /-! ## observations -/
 
@@ -976,12 +1023,26 @@ theorem Loc.observePop {r : Nat} (x persons : Id) {e : Nat × Id} (he : e.2.reg 
   refine Loc.bind (Loc.mapMH _ fun a ha => Loc.observeHolder x e.2 (hpo.2.1 a ha)) fun _ _ => ?_
   exact Loc.pure _ trivial
 
+theorem Loc.routeOwn {r : Nat} {x : Id} (hx : x.reg = r) (rt : Route) (ent : Nat) :
+    Loc r (routeOwn x rt ent) (fun _ => True) := by
+  unfold Heap.routeOwn
+  refine Loc.bind (Loc.routePop hx rt ent) fun pid hpid => ?_
+  exact Loc.bind (Loc.rdPop hpid) fun po _ => Loc.pure _ trivial
+
+theorem Loc.observeRoutes {r : Nat} {x : Id} (hx : x.reg = r) (e : Nat × Id) :
+    Loc r (observeRoutes x e) (fun _ => True) := by
+  unfold Heap.observeRoutes
+  refine Loc.bind (Loc.routeOwn hx _ _) fun a _ => ?_
+  refine Loc.bind (Loc.routeOwn hx _ _) fun b _ => ?_
+  exact Loc.bind (Loc.routeOwn hx _ _) fun c _ => Loc.pure _ trivial
+
 theorem Loc.observe {r : Nat} {x : Id} (hx : x.reg = r) : Loc r (observe x) (fun _ => True) := by
   unfold Heap.observe
   refine Loc.bind (Loc.rdSim hx) fun so hso => ?_
   refine Loc.bind (Loc.rdTracer hso.2.2.1) fun tr _ => ?_
   refine Loc.bind (Loc.rdInval hso.2.2.2.1) fun inv _ => ?_
   refine Loc.bind (Loc.mapMH _ fun a ha => Loc.observePop x so.persons (hso.2.1 a ha)) fun _ _ => ?_
-  exact Loc.pure _ trivial
+  refine Loc.bind (Loc.mapMH _ fun a _ => Loc.observeRoutes hx a) fun _ _ => ?_
+  exact Loc.bind (Loc.routeOwn hx _ _) fun _ _ => Loc.pure _ trivial
 
 end OFCore.Heap
